@@ -1183,8 +1183,23 @@ fn do_astar(c: &mut Ctx, s: u64, t: u64, costs: &BTreeMap<u64, i128>, dir: Direc
 fn do_all_paths(c: &mut Ctx, s: u64, t: u64) {
     let g = c.g;
     let tag = c.tag.clone();
-    let line = format!("find_all_paths {s} {t}");
+    let line = format!("allpaths {s} {t}");
     let res = c.eng.find_all_paths(s, t, None);
+    let imp = match &res {
+        Ok(ap) => format!(
+            "ok {} {} {}",
+            ap.hop_count,
+            ap.paths.len(),
+            ap.paths.iter().map(|p| format!("{}/{}", dots(&p.nodes), dots(&p.edges))).collect::<Vec<_>>().join(";")
+        )
+        .trim_end()
+        .to_string(),
+        Err(GraphError::NodeNotFound(n)) => format!("nonode {n}"),
+        Err(GraphError::PathNotFound) => "none".into(),
+        Err(e) => format!("err {e:?}"),
+    };
+    let model = c.m.ask(&line);
+    c.rep.compare("find_all_paths", || qjson(g, &tag, &line), &imp, &model);
     let key = format!("{}|{}", tag, line);
     c.rep.case("find_all_paths", if s != t { Some(&key) } else { None });
     let site = "graph_engine.find_all_paths";
@@ -1193,6 +1208,9 @@ fn do_all_paths(c: &mut Ctx, s: u64, t: u64) {
     match res {
         Ok(ap) => {
             c.rep.hit("allpaths.ok");
+            if ap.paths.len() > 1 {
+                c.rep.hit("allpaths.multi");
+            }
             if Some(ap.hop_count) != want {
                 viol(c.rep, &format!("{site}/not_shortest"), &format!("hop_count {} but BFS distance is {want:?}", ap.hop_count), qjson(g, &tag, &line));
                 return;
@@ -1763,7 +1781,7 @@ fn main() {
         "trav.ok", "trav.nonode", "trav.bounded", "trav.out", "trav.in", "trav.both",
         "vpaths.ok", "vpaths.empty", "vpaths.cycles", "vpaths.nonode",
         "graph.self_loop", "graph.parallel_edges", "graph.disconnected", "graph.mixed_direction", "graph.after_deletions",
-        "triangles.some", "allpaths.ok", "astar.ok",
+        "triangles.some", "allpaths.ok", "allpaths.none", "allpaths.multi", "astar.ok",
     ]
     .iter()
     .map(|s| s.to_string())
